@@ -7,6 +7,7 @@ package zzharness
 import (
 	"bytes"
 	"fmt"
+	"os"
 	"math/rand/v2"
 	"sort"
 	"strings"
@@ -29,8 +30,11 @@ func genTunnelPlan(r *rand.Rand) *ProxyPlan {
 		rs.CC = [][]string{{"max-age=600"}, {"max-age=2"}, {"no-store"}}[r.IntN(3)]
 		rs.ETag = []string{"strong", ""}[r.IntN(2)]
 		rs.LastMod = r.IntN(2) == 0
-		rs.Status = []int{200, 200, 200, 404, 500}[r.IntN(5)]
+		rs.Status = []int{200, 200, 200, 404, 500, 204, 200, 200}[r.IntN(8)]
 		rs.NoLength = r.IntN(2) == 0
+		if rs.Status == 204 {
+			rs.Size = 0 // a 204 has no content
+		}
 		rs.RangeMode = []string{"ignore", "ignore", "honor"}[r.IntN(3)]
 		rs.Extra = [][2]string{{"X-Res-Tag", "tag-" + itoa(i)}}
 		if r.IntN(2) == 0 {
@@ -38,6 +42,9 @@ func genTunnelPlan(r *rand.Rand) *ProxyPlan {
 		}
 		if r.IntN(3) == 0 {
 			rs.Extra = append(rs.Extra, [2]string{"Content-Language", []string{"da", "en", "de"}[i%3]})
+		}
+		if i > 0 && r.IntN(6) == 0 {
+			rs.Host = "down.test" // nobody listens there: the proxy answers 502 itself, without reading the request's content
 		}
 		p.Res = append(p.Res, rs)
 	}
@@ -50,6 +57,9 @@ func genTunnelPlan(r *rand.Rand) *ProxyPlan {
 		q.Method = []string{"GET", "GET", "GET", "GET", "HEAD", "POST"}[r.IntN(6)]
 		if q.Method == "POST" {
 			q.Body = []int{0, 30}[r.IntN(2)]
+		}
+		if q.Method == "GET" && r.IntN(8) == 0 {
+			q.Body = 30 // unusual but legal: content on a GET request
 		}
 		if q.Method == "GET" && r.IntN(3) == 0 {
 			q.Range = []string{"bytes=0-4", "bytes=2-", "bytes=-3", "bytes=5-1", "bytes=100000-"}[r.IntN(5)]
@@ -112,6 +122,16 @@ func runTunnelPlan(t *testing.T, planAny any, ctl Ctl) *Result {
 	}
 	for _, w := range []*proxyWorld{w1, wn, wp} {
 		sort.SliceStable(w.exch, func(i, j int) bool { return w.exch[i].Idx < w.exch[j].Idx })
+	}
+	if os.Getenv("VERIF_DEBUG") != "" {
+		for i, w := range []*proxyWorld{w1, wn, wp} {
+			for _, o := range w.olog {
+				fmt.Printf("DEBUG world %d origin #%d %s %s range=%q bodylen=%d -> %d\n", i, o.N, o.Method, o.URI, o.Hdr.Get("Range"), o.BodyLen, o.Status)
+			}
+			for _, e := range w.exch {
+				fmt.Printf("DEBUG world %d exch %d %s status=%d complete=%v err=%q sim-resp=%v errlog=%v\n", i, e.Idx, reqDesc(e), e.Status, e.Complete, e.Err, e.Hdr["X-Sim-Resp"], w.errLog)
+			}
+		}
 	}
 	res := r1
 	res.Steps += rn.Steps + rp.Steps
